@@ -825,8 +825,10 @@ Definition prim_prog (p : prim) : mprog pout :=
 (* ------------------------------------------------------------------ histories *)
 
 (* The client's view: the heap plus the handles the library has handed out so far. *)
-Record pstate := { hp : mheap; kn : list handle }.
-Definition pinit : pstate := {| hp := [[]]; kn := [] |}.
+(* [par]: the arena this client allocates in (0 for a sequential client; a goroutine's own arena in
+   C20).  [ptr]: the calls made so far, newest first (a trace; nothing reads it back). *)
+Record pstate := { hp : mheap; kn : list handle; par : nat; ptr : list prim }.
+Definition pinit : pstate := {| hp := [[]]; kn := []; par := 0; ptr := [] |}.
 
 Inductive presult := RDone (o : pout) | RPanic.
 
@@ -893,10 +895,11 @@ Definition returns_caps (p : prim) : bool :=
   end.
 
 Definition pstep (ps : pstate) (p : prim) : pstate * presult :=
-  let '(o, h', _) := run 0 (prim_prog p) (hp ps) in
+  let '(o, h', _) := run (par ps) (prim_prog p) (hp ps) in
   match o with
-  | Done po => ({| hp := h'; kn := if returns_caps p then fold_left add_known (out_handles po) (kn ps) else kn ps |}, RDone po)
-  | Crashed => ({| hp := h'; kn := kn ps |}, RPanic)
+  | Done po => ({| hp := h'; kn := if returns_caps p then fold_left add_known (out_handles po) (kn ps) else kn ps;
+                   par := par ps; ptr := p :: ptr ps |}, RDone po)
+  | Crashed => ({| hp := h'; kn := kn ps; par := par ps; ptr := p :: ptr ps |}, RPanic)
   end.
 
 Definition prim_operands (p : prim) : list handle :=
